@@ -102,6 +102,32 @@ Theorem C18_dial_refused_by_later_plugin_keeps_slot_refuted :
 Proof. exact dial_refused_later_keeps_slot. Qed.
 Print Assumptions C18_dial_refused_by_later_plugin_keeps_slot_refuted.
 
+(* Limiter instances.  Update(MaxConn <= 0) drops the limiter, a later Update(MaxConn > 0)
+   builds a fresh one; a slot belongs to the instance it was taken from.  In every state
+   reachable by connects, refusals, disconnects, limit stores and off/on switches in any
+   order, EVERY instance that ever existed (current or replaced) has now/tmp equal to
+   the slots held by its own connections - never negative -, its admitted sessions are
+   at most its counter and its bound, and at most its limit whenever its holders fit. *)
+Theorem C18_every_limiter_instance : forall M g, mreach M ->
+  let s := getn ldef g (m_gens M) in
+  c_now (l_c s) = sumz now_of (l_ss s) /\ c_tmp (l_c s) = sumz tmp_of (l_ss s) /\
+  0 <= c_now (l_c s) /\ 0 <= c_tmp (l_c s) /\
+  admitted s <= c_now (l_c s) /\ admitted s <= l_hw s /\
+  (c_tmp (l_c s) <= c_lim (l_c s) -> admitted s <= c_lim (l_c s)).
+Proof. exact every_instance. Qed.
+Print Assumptions C18_every_limiter_instance.
+
+(* The variant that releases through the plugin's CURRENT limiter: limit 1, A admitted,
+   limit off, limit 1 again, A disconnects (the fresh instance drops to -1), B and C are
+   both admitted through the fresh instance. *)
+Theorem C18_release_on_current_limiter_refuted :
+  exists M, mrun true minit witness_release_on_current = Some M /\
+            let s := getn ldef 1 (m_gens M) in
+            admitted s = 2 /\ c_lim (l_c s) = 1 /\ l_hw s = 1 /\ c_now (l_c s) = 1 /\
+            sumz now_of (l_ss s) = 2.
+Proof. exact release_on_current_refuted. Qed.
+Print Assumptions C18_release_on_current_limiter_refuted.
+
 (* ---------------- rate limit ---------------- *)
 
 (* Any window [tr] of any interleaving starting in any well-formed state: the takes
